@@ -339,7 +339,7 @@ func (fr *Frame) safety(st *State, kind string, cond Term, what string) {
 	if cond == tTrue {
 		return
 	}
-	if fr.top && fr.contract != nil && fr.contract.Safe && !vc.quiet {
+	if fr.top && fr.contract != nil && fr.contract.Safe && !vc.quiet && safeSelected(fr.contract, what) {
 		fr.callOrd["safe:"+kind]++
 		name := fmt.Sprintf("%s/safe[%s#%d]", vc.fnKey, kind, fr.callOrd["safe:"+kind])
 		vc.oblige(st, name, "safe", cond, what)
@@ -456,7 +456,7 @@ func (fr *Frame) exec(st *State, instr ssa.Instruction) {
 			return
 		}
 		p := fr.val(st, x.Addr)
-		fr.safety(st, "nil-deref", tNot(tEq(p.S[0], "0")), "store through "+x.Addr.Name())
+		fr.safety(st, "nil-deref", tNot(tEq(p.S[0], "0")), "store through "+x.Addr.Name()+" of type "+x.Addr.Type().String())
 		v := fr.val(st, x.Val)
 		v.T = x.Addr.Type().Underlying().(*types.Pointer).Elem()
 		vc.storeAt(st, p.S[0], p.S[1], v)
@@ -479,7 +479,7 @@ func (fr *Frame) exec(st *State, instr ssa.Instruction) {
 		}
 		p := fr.val(st, x.X)
 		stt := x.X.Type().Underlying().(*types.Pointer).Elem().Underlying().(*types.Struct)
-		fr.safety(st, "nil-deref", tNot(tEq(p.S[0], "0")), "field address of nil "+x.X.Name())
+		fr.safety(st, "nil-deref", tNot(tEq(p.S[0], "0")), "field address through "+x.X.Name()+" of type "+x.X.Type().String())
 		fr.setVal(x, Val{S: []Term{p.S[0], tAdd(p.S[1], tInt(int64(lay.fieldOffset(stt, x.Field))))}})
 	case *ssa.Field:
 		s := fr.val(st, x.X)
@@ -616,7 +616,7 @@ func (fr *Frame) execUnOp(st *State, x *ssa.UnOp) {
 			return
 		}
 		p := fr.val(st, x.X)
-		fr.safety(st, "nil-deref", tNot(tEq(p.S[0], "0")), "load through "+x.X.Name())
+		fr.safety(st, "nil-deref", tNot(tEq(p.S[0], "0")), "load through "+x.X.Name()+" of type "+x.X.Type().String())
 		v := vc.loadAt(st, p.S[0], p.S[1], x.Type())
 		// name the loaded slots and assume their typing facts
 		for i := range v.S {
@@ -1147,4 +1147,19 @@ func (fr *Frame) checkGlobalInvs(st *State, g *ssa.Global) {
 		name := fmt.Sprintf("%s/global-invariant[%s]@store[%s#%d]", vc.fnKey, gi.Clause.Label, g.Name(), fr.callOrd["ginv:"+gi.Clause.Label])
 		vc.oblige(st, name, "ensures", env.evalBool(gi.Clause.Expr), gi.Clause.Text)
 	}
+}
+
+// safeSelected: `safe` without arguments checks every implicit panic; `safe
+// pat1 pat2` only those whose description mentions one of the patterns (e.g. a
+// pointer type).
+func safeSelected(ct *Contract, what string) bool {
+	if len(ct.SafeOnly) == 0 {
+		return true
+	}
+	for _, p := range ct.SafeOnly {
+		if strings.Contains(what, p) {
+			return true
+		}
+	}
+	return false
 }
